@@ -1408,7 +1408,7 @@ ROUTES = (("native-scope/bounded#", None),
           ("deserialize_extraction", ("function-differential",)), ("_unwrap_optional", ("function-differential",)),
           ("_bytes_to_base64", ("base64-helpers-boundary-sizes",)), ("_bytesio_to_base64", ("base64-helpers-boundary-sizes",)),
           ("_base64_to_bytes", ("base64-helpers-boundary-sizes",)),
-          ("post-init", ("post-init-idempotent",)),
+          ("__post_init__/ensures", ("post-init-idempotent",)), ("post-init", ("post-init-idempotent",)),
           ("keys-are-str", ("xls-workbook-rows", "marker-slots")),
           ("dict-keys", ("marker-slots",)),
           ("ods_extractor", ("ods-cell-kinds",)),
